@@ -1,4 +1,5 @@
 """Mindustry (C07): how the generic property runners drive it."""
+from props import malformed
 
 FAMILY = dict(
     send_units=1, name="mindustry", nargs=2, gen="mindustry", retries=1, port=0, decode_property="C07", entry="mindustry",
@@ -26,7 +27,7 @@ def c10_build(valid, unit, v, r, new_id):
         elif e == "F":
             conns.append([]); faults.append(True)
         elif e == "M":
-            conns.append([b"\xff\xff"]); faults.append(False)
+            conns.append([malformed.CURRENT]); faults.append(False)
         else:
             conns.append([reply]); faults.append(False)
     c.script = conns
